@@ -22,4 +22,10 @@ cat "$REPO/go.sum" go.sum 2>/dev/null | sort -u > go.verif.sum
   case "$ID" in
     C20|C14|C09|C19|all) (cd "$REPO" && go build -o "$HERE/bin/in-toto" .) ;;
   esac
+  case "$ID" in
+    C19|all)
+      # helper built inside the repository's module via an overlay (internal/spiffe is not importable from outside)
+      printf '{"Replace":{"%s/cmd/zz_verif_spiffe/main.go":"%s/harness/overlay/spiffe_main.go.txt"}}' "$REPO" "$HERE" > "$HERE/bin/overlay.json"
+      (cd "$REPO" && go build -overlay "$HERE/bin/overlay.json" -o "$HERE/bin/vspiffe" ./cmd/zz_verif_spiffe) ;;
+  esac
 ) 9>"$HERE/bin/.buildlock"
